@@ -304,3 +304,17 @@ func TestDefectD15CheckVarOriginNil(t *testing.T) {
 	res := analysis.CheckSource(`vars { number = balance(@a, USD) }`)
 	res.GetSymbols()
 }
+
+func TestDefectD16OriginSeesOwnAndLaterVariables(t *testing.T) {
+	for _, src := range []string{
+		`vars { account $a = meta($a, "k") }
+send [USD 1] (source = @world destination = $a)`,
+	} {
+		res := analysis.CheckSource(src)
+		p := numscript.Parse(src)
+		_, err := p.Run(context.Background(), nil, interpreter.StaticStore{Meta: interpreter.AccountsMetadata{"x": {"k": "y"}}})
+		if err != nil && res.GetErrorsCount() == 0 {
+			t.Errorf("clean check but run-time error on %q: %v", src, err)
+		}
+	}
+}
